@@ -15,6 +15,12 @@ if ROUND == '1':
     SRC = '/tmp/seed_%s/out'
     NAME = '%s_%d'
     LOGPREFIX = 'out/patch'
+elif ROUND == '3':
+    PAIRS = [('/tmp/seed3_batch.sh', '/tmp/seedrun3.log'), ('/tmp/seed3_batch2.sh', '/tmp/seedrun3b.log'), ('/tmp/seed3_batch3.sh', '/tmp/seedrun3c.log')]
+    CONF = '/tmp/confirm_seeds3.log'
+    SRC = '/tmp/seedout3_%s'
+    NAME = '%s_r3_%d'
+    LOGPREFIX = 'seedout3_'
 else:
     PAIRS = [('/tmp/seed2_batch.sh', '/tmp/seedrun2.log'), ('/tmp/seed2_batch3.sh', '/tmp/seedrun2b.log')]
     CONF = '/tmp/confirm_seeds2.log'
@@ -93,7 +99,7 @@ def main():
         }
         json.dump(meta, open(os.path.join(d, 'meta.json'), 'w'), indent=1)
         rows.append((name, ','.join(detected_by) or 'MISSED', [r['check'] + ':' + r['verdict'] for r in res]))
-    with open(os.path.join(out, 'README.md' if ROUND == '1' else 'README_round2.md'), 'w') as f:
+    with open(os.path.join(out, 'README.md' if ROUND == '1' else 'README_round%s.md' % ROUND), 'w') as f:
         f.write('# Seeded changes\n\nWritten by fresh sub-agents that saw only the property text and a scratch worktree; each was confirmed '
                 'independently (builds, existing suite passes, demonstration fails with the change and passes without) and then run against '
                 'the checks with `tools/seedrun.py`. The demonstration tests are stored as `demo_test.go.txt` so that no Go tool picks them up.\n\n'
